@@ -13,6 +13,14 @@ C11.run     unsigned-run counter: guarded increment (< 100), reset on a signed
             message, checked by done().
 C11.width   the TSIG variables fed to the digest have the wire widths
             (other data: announced Other Len == octets fed).
+C11.alg     Algorithm::from_name answers Some only for a name of exactly one
+            label followed by the root (or by comparison with a whole name).
+C11.prime   in server_request every use of the signing context after the MAC
+            check -- the signed BADTIME error as well as the context handed
+            back -- comes after the request MAC was fed into it.
+C11.time48  Time48::into_octets puts bits 47-8i..40-8i of the value into octet
+            i (per-octet stores or to_be_bytes copies); from_slice reads the
+            same layout.
 C11.err     verification errors map to the RCODEs of RFC 8945 5.2/5.3 with
             explicit arms for every variant the callee can return.
 """
@@ -53,6 +61,9 @@ def run(ctx):
     rule_fudge(ctx, F)
     rule_canon(ctx, F)
     rule_chain(ctx, F)
+    rule_alg(ctx, F)
+    rule_prime(ctx, F)
+    rule_time48(ctx, F)
 
 
 def _calls(b, rx):
@@ -477,6 +488,141 @@ def _lin3(t):
     for k, v in lb.items():
         out[k] = out.get(k, 0) + (v if op == "+" else -v)
     return out
+
+
+def rule_alg(ctx, F):
+    R = "C11.alg"
+    ctx.floor(R, 3)
+    bs = F.find_bodies(r"^tsig::Algorithm::from_name(::<.*>)?$")
+    if not ctx.anchor(R, "Algorithm::from_name", len(bs) == 1):
+        return
+    b = bs[0]
+    n = 0
+    for bi, si, kind, term in return_assignments(b):
+        if kind != "Some":
+            continue
+        n += 1
+        root_seen = False
+        whole = False
+        for tt, v, _ in facts_at(b, bi, F):
+            s = show(deep_strip(tt))
+            if v is True and re.search(r"Label::is_root\(", s):
+                root_seen = True
+            if v is True and re.search(r"::(name_eq|eq)\(", s) and "arg1" in s and "iter_labels" not in s:
+                whole = True
+        ctx.ob(R, b, "Some#%d only for a one-label name" % n, root_seen or whole,
+               "Algorithm::from_name answers Some(..) without having seen the root label right behind the first label: "
+               "`hmac-sha256.anything.` is taken for HMAC-SHA256, so a request whose algorithm name was altered still "
+               "verifies (the MAC covers the key's own algorithm name)", b.where(bi))
+
+
+def rule_prime(ctx, F):
+    R = "C11.prime"
+    ctx.floor(R, 2)
+    b = F.one_body(r"^tsig::SigningContext::<K>::server_request$") if hasattr(F, "one_body") else None
+    if not ctx.anchor(R, "SigningContext::server_request", b):
+        return
+    app = [bb for bb, t in b.calls() if (t["fn"] or "").endswith("SigningContext::<K>::apply_signature")]
+    if not ctx.anchor(R, "apply_signature(request MAC) in server_request", len(app) >= 1, b.where()):
+        return
+    cmps = [bb for bb, t in b.calls() if re.search(r"Key::compare_signatures$|SigningContext::<K>::request$", t["fn"] or "")]
+    n = 0
+    for bb, t in b.calls():
+        fn = t["fn"] or ""
+        if not fn.endswith("ServerError::<K>::signed"):
+            continue
+        if cmps and not any(bb in b.reach_from(c) for c in cmps):
+            continue
+        n += 1
+        ctx.ob(R, b, "signed error #%d is made from a context that holds the request MAC" % n, any(b.dominates(a, bb) for a in app),
+               "server_request builds a signed error response (BADTIME) from a context the request MAC was not yet fed "
+               "into: RFC 8945 5.3.2 requires the request MAC as the prior MAC, the client answers BadSig", b.where(bb))
+    for bi, si, kind, term in return_assignments(b):
+        if kind == "Ok" and term is not None and "Some" in show(term):
+            n += 1
+            ctx.ob(R, b, "the context handed back holds the request MAC", any(b.dominates(a, bi) for a in app),
+                   "server_request returns the signing context without the request MAC in it", b.where(bi))
+
+
+def rule_time48(ctx, F):
+    R = "C11.time48"
+    ctx.floor(R, 2)
+    b = F.one_body(r"^rdata::tsig::Time48::into_octets$")
+    if ctx.anchor(R, "Time48::into_octets", b):
+        covered = {}
+        bad = []
+        # form A: res[i] = (self.0 >> k) as u8
+        for bi in sorted(b.reachable_blocks()):
+            for st in b.blocks[bi]["s"]:
+                if st[0] != "=" or len(st[1]) != 2 or not isinstance(st[1][1], (list, tuple)) or st[1][1][0] not in ("[]", "c[]"):
+                    continue
+                idx = const_value(b.term_of_local(st[1][1][1])) if st[1][1][0] == "[]" else st[1][1][1]
+                val = deep_strip(b.term_of_rvalue(st[2]))
+                while val[0] == "cast":
+                    val = deep_strip(val[2])
+                k = 0
+                if val[0] == "bin" and val[1] == "Shr":
+                    k = const_value(deep_strip(val[3]))
+                    val = deep_strip(val[2])
+                if idx is None or k is None or show(val) != "arg1.0":
+                    continue
+                covered[idx] = k
+                if k != 40 - 8 * idx:
+                    bad.append("octet %d <- bits from %d" % (idx, k))
+        # form B: res[a..].copy_from_slice(&((self.0 >> k) as uN).to_be_bytes())
+        for bb, t in b.calls():
+            if not (t["fn"] or "").endswith("copy_from_slice") or len(t["args"]) < 2:
+                continue
+            dst = deep_strip(b.term_of_operand(t["args"][0]))
+            src = deep_strip(b.term_of_operand(t["args"][1]))
+            rng = [s for s in walk(dst) if s[0] == "agg" and "Range" in str(s[1][1])]
+            tb = [s for s in walk(src) if s[0] == "call" and (s[1] or "").endswith("to_be_bytes")]
+            if not rng or not tb:
+                continue
+            m = re.search(r"impl (u\d+)>", tb[0][1])
+            width = int(m.group(1)[1:]) // 8 if m else None
+            rname = str(rng[0][1][1])
+            consts = [const_value(deep_strip(x)) for x in rng[0][2]]
+            a = 0 if rname.endswith("RangeTo") else consts[0]
+            val = deep_strip(tb[0][3][0])
+            while val[0] == "cast":
+                val = deep_strip(val[2])
+            k = 0
+            if val[0] == "bin" and val[1] == "Shr":
+                k = const_value(deep_strip(val[3]))
+                val = deep_strip(val[2])
+            if width is None or a is None or k is None or show(val) != "arg1.0":
+                continue
+            for j in range(width):
+                covered[a + j] = k + 8 * (width - 1 - j)
+                if covered[a + j] != 40 - 8 * (a + j):
+                    bad.append("octet %d <- bits from %d" % (a + j, covered[a + j]))
+        if set(covered) != set(range(6)) and not bad:
+            ctx.undecided_item(R, "Time48::into_octets", "layout not recognised (octets covered: %s)" % sorted(covered))
+        else:
+            ctx.ob(R, b, "octet i holds bits 47-8i..40-8i", not bad,
+                   "Time48::into_octets does not write the 48-bit value in network byte order (%s): the time on the wire "
+                   "and in the digest is wrong for values of 2^32 and more" % "; ".join(sorted(set(bad))[:4]))
+    c = F.one_body(r"^rdata::tsig::Time48::from_slice$")
+    if ctx.anchor(R, "Time48::from_slice", c):
+        shifts = {}
+        for s in walk(deep_strip(c.term_of_local(0))):
+            if s[0] == "bin" and s[1] == "Shl":
+                k = const_value(deep_strip(s[3]))
+                inner = [x for x in walk(s[2]) if x[0] == "idx"]
+                if k is not None and inner:
+                    i = const_value(deep_strip(inner[0][2]))
+                    if i is not None:
+                        shifts[i] = k
+        last = [const_value(deep_strip(x[2])) for x in walk(deep_strip(c.term_of_local(0))) if x[0] == "idx"]
+        for i in last:
+            shifts.setdefault(i, 0)
+        if set(shifts) != set(range(6)):
+            ctx.undecided_item(R, "Time48::from_slice", "layout not recognised (%s)" % shifts)
+        else:
+            wrong = ["octet %d -> bits from %d" % (i, k) for i, k in sorted(shifts.items()) if k != 40 - 8 * i]
+            ctx.ob(R, c, "octet i supplies bits 47-8i..40-8i", not wrong,
+                   "Time48::from_slice does not read the 48-bit value in network byte order (%s)" % "; ".join(wrong))
 
 
 def rule_fudge(ctx, F):
